@@ -225,10 +225,10 @@ fn fixed_case(max_recs: usize, max_pkts: usize) -> BoxedStrategy<Case> {
 
 pub fn run(ctx: &Ctx) {
     ctx.replay_findings(&oracle);
-    ctx.search("random-packets", ctx.n(150_000, 3_000_000), &|| fixed_case(6, 4), &oracle);
-    ctx.search("more-records", ctx.n(6_000, 100_000), &|| fixed_case(40, 2), &oracle);
+    ctx.search("random-packets", ctx.n(800_000, 40_000_000), &|| fixed_case(6, 4), &oracle);
+    ctx.search("more-records", ctx.n(30_000, 1_000_000), &|| fixed_case(40, 2), &oracle);
     if ctx.thorough() {
-        ctx.search("datagram-limit", 4_000, &|| fixed_case(1364, 1), &oracle);
+        ctx.search("datagram-limit", 40_000, &|| fixed_case(1364, 1), &oracle);
     }
     let mut cases = vec![];
     for (v, n, rl) in [(5u16, 1364usize, 48usize), (7, 1259, 52)] {
